@@ -186,6 +186,93 @@ def path_render(ctx, arg):
         ctx.tag('same_output')
 
 
+def path_git(ctx, arg):
+    """the git extraction (zerv's side, C02 stub) twice on the same repository summary under two process environments:
+    the reported facts must be identical (hash-container iteration order, hasher keys, TZ, variables are epoch-private)"""
+    import c02
+    I, w = ctx.I, ctx.w
+    wd = c02.GitWorld(ctx, arg)
+    fmt = arg['fmt']
+
+    def run():
+        c02.WORLD[0] = wd
+        try:
+            vcs = Adt('GitVcs', 0, [mkstring('/repo-under-test')])
+            r = I.call('<GitVcs as Vcs>::get_vcs_data', [ValPtr(vcs), Str(c02.txt(fmt))])
+        finally:
+            c02.WORLD[0] = None
+        if r.variant != 0:
+            return None
+        d = r.fields[0]
+        rv = I.call('vcs_data_to_zerv_vars', [deep_copy(d), Str(c02.txt(fmt))])
+        return d, rv
+    try:
+        a, b = two_envs(run, I)
+    except Panic as e:
+        ctx.violation(clause='panic', what='git', detail=str(e), vkey='panic|git')
+        return
+    ctx.tag('two_runs')
+
+    def viol(detail):
+        m = w.get_model()
+        ctx.violation(clause='env_dependent', what='git', world=wd.concrete(m), fmt=fmt, env=env_of(w, m), detail=detail, vkey='env|git|' + arg.get('name', ''))
+    if a is None or b is None:
+        if (a is None) != (b is None):
+            viol('extraction succeeds in one environment only')
+        return
+    diffs = []
+
+    def cmpv(x, y, path):
+        x, y = peel(x), peel(y)
+        if isinstance(x, (StringObj, Str)) or isinstance(y, (StringObj, Str)):
+            if differ(w, chars_of(x), chars_of(y)) is not None:
+                diffs.append(path)
+        elif isinstance(x, Adt) and isinstance(y, Adt):
+            if isinstance(x.variant, int) and isinstance(y.variant, int):
+                if x.variant != y.variant:
+                    diffs.append(path)
+                    return
+            elif w.find(x.variant != y.variant) is not None:
+                diffs.append(path)
+                return
+            for i, (p, q) in enumerate(zip(x.fields, y.fields)):
+                cmpv(p, q, '%s.%d' % (path, i))
+        elif isinstance(x, (int, bool)) and isinstance(y, (int, bool)):
+            if x != y:
+                diffs.append(path)
+        elif z3.is_expr(x) or z3.is_expr(y):
+            if w.find(x != y) is not None:
+                diffs.append(path)
+        elif hasattr(x, 'items') and hasattr(y, 'items'):
+            xs, ys = list(x.items), list(y.items)
+            if len(xs) != len(ys):
+                diffs.append(path)
+            else:
+                for i, (p, q) in enumerate(zip(xs, ys)):
+                    cmpv(p, q, '%s[%d]' % (path, i))
+    for i, n in enumerate(c02.VCS_FIELDS):
+        cmpv(a[0].fields[i], b[0].fields[i], n)
+    if not diffs:
+        cmpv(a[1], b[1], 'vars')
+    if diffs:
+        viol('the extraction reports different facts in two process environments: %s' % ', '.join(diffs[:4]))
+    else:
+        ctx.tag('same_output')
+
+
+def git_args(tier):
+    import c02
+    q = tier == 'quick'
+    out = []
+    for name in (('spelling', 'semver_order') if q else c02.MENUS):
+        tags, fmts = c02.MENUS[name]
+        for fmt in (fmts[:1] + fmts[-1:] if q else fmts):
+            for k in ((1, 2) if q else (1, 2, 3)):
+                out.append(dict(name=name, fmt=fmt, commits=k, tags=tags, branch=list('main'), status_len=0))
+    out.append(dict(name='equal_precedence', fmt='semver', commits=1, tags=['v1.0.0+a', 'v1.0.0+b', '1.0.0', 'v1.0.0'], branch=None, status_len=1))
+    return out
+
+
 def fn_args(tier):
     out = [('hash', n, ln) for n in (0, 1, 2) for ln in (None, 7, 16)] + [('hash_int', n, ln) for n in (0, 1, 2) for ln in (None, 5, 10)]
     out += [('format_timestamp', f) for f in (None, '%Y%m%d', 'compact_date', 'compact_datetime', '%H:%M:%S', '%y.%-m.%-d', '%Y-%m-%dT%H:%M:%S')]
